@@ -130,11 +130,14 @@ def run(ctx):
                                   str(fmt('ab')), n_first[json.dumps(cfg, sort_keys=True)]))
     # multi-chunk texts: colour must not bleed from one chunk into the next
     ntext = 3000 if ctx.quick else 40000
+    coloured_cfgs = [c for c in valid_cfgs if not c['nocolor'] and c['fg']['t'] != 'none']
     for i in range(ntext):
         k = ctx.rnd.randrange(2, 4)
+        if i % 1000 == 7:
+            k = ctx.rnd.randrange(200, 300)             # a long text: several hundred escape sequences
         parts = []
         for _ in range(k):
-            cfg = ctx.rnd.choice(valid_cfgs)
+            cfg = ctx.rnd.choice(valid_cfgs if k < 100 else coloured_cfgs)
             parts.append((cfg, ctx.rnd.choice(TEXTS)))
         if i % 6 == 0:
             parts[1] = (parts[0][0], parts[1][1])       # two consecutive parts of the same colour (they get merged)
